@@ -81,6 +81,9 @@ type c09Plan struct {
 	CallOff  time.Duration `json:"call_off"` // call instant relative to the slot start
 	Relays   []c09Relay    `json:"relays"`
 	Builders []c09Builder  `json:"builders"`
+	// BadAddress is only set by the probe scenario (not part of C09's space):
+	// relay 0 is configured with an address for which no builder client can be obtained.
+	BadAddress bool `json:"bad_address,omitempty"`
 }
 
 const (
@@ -560,6 +563,9 @@ func c09Exec(plan any, sched *simrt.Tape) *sim.Outcome {
 				sc.Outcomes[st.name+"/BuilderBid"] = append(sc.Outcomes[st.name+"/BuilderBid"], o)
 			}
 			util.VerifSetBuilderClient(st.addr, st)
+			if pl.BadAddress && i == 0 {
+				rc.Address = "" // FetchBuilderClient: "no address supplied", before any client is built
+			}
 			run.stubs = append(run.stubs, st)
 			pc.Relays = append(pc.Relays, rc)
 		}
@@ -905,6 +911,13 @@ func c09B(b c09Builder) string {
 }
 
 func init() {
+	for _, st := range []string{"best", "deadline"} {
+		sim.Register(&sim.Scenario{Property: "C09PROBE", Name: "unobtainable-client-" + st, Exec: c09Exec, Gen: func(p *simrt.Tape) any {
+			pl := c09GenFor(p, &c09Plan{Strategy: st}).(*c09Plan)
+			pl.BadAddress = true
+			return pl
+		}})
+	}
 	sim.Register(&sim.Scenario{Property: "C09", Name: "best", Gen: c09Gen, Exec: c09Exec})
 	sim.Register(&sim.Scenario{Property: "C09", Name: "deadline", Gen: c09GenDeadline, Exec: c09Exec})
 }
